@@ -1142,8 +1142,17 @@ class Fxp():
         return val
 
     def _round(self, val, method='floor'):
-        if isinstance(val, int) or np.issubdtype(np.array(val).dtype, np.integer) or np.issubdtype(np.array(val).dtype, np.object_):
+        if isinstance(val, int) or np.issubdtype(np.array(val).dtype, np.integer):
             rval = val
+        elif np.issubdtype(np.array(val).dtype, np.object_):
+            # python numbers (extended precision path): integers are exact already, floats are rounded one by one
+            _rounders = {'around': round, 'floor': math.floor, 'ceil': math.ceil, 'fix': math.trunc, 'trunc': math.trunc}
+            _val = np.array(val, dtype=object)
+            if method in _rounders and any(isinstance(v, float) for v in _val.flat):
+                rval = np.array([_rounders[method](v) if isinstance(v, float) and math.isfinite(v) else v for v in _val.flat],
+                                dtype=object).reshape(_val.shape)
+            else:
+                rval = val
         elif method == 'around':
             rval = np.around(val)
         elif method == 'floor':
